@@ -205,6 +205,9 @@ func runCheck(prop, tier string, writeLock bool) int {
 
 	// collect functions and lemmas of this property
 	var execs []*Exec
+	localsSeen := map[string]bool{}
+	var lockedList []string
+	loadJSON(filepath.Join(verifRoot, "locks", prop+".json"), &lockedList)
 	var allObls []*Obligation
 	var freps []*funcReport
 	var genErrs []string
@@ -234,6 +237,25 @@ func runCheck(prop, tier string, writeLock bool) int {
 				genErrs = append(genErrs, fmt.Sprintf("%s: function %s under contract no longer exists", pp, key))
 				violate(pkg.Types.Name()+"."+key+"/missing", true, map[string]interface{}{"reason": "function under contract not found in the current source", "contract": fmt.Sprintf("%s:%d", ct.File, ct.Line)})
 				continue
+			}
+			// locals table: recorded at lock time, compared now (pure renames rebind contract names)
+			{
+				fnKey := pkg.Types.Name() + "." + key
+				tab := localsTable(fi)
+				cur := fnKey + "/cover/locals=" + strings.Join(tab, "|")
+				localsSeen[cur] = true
+				if !writeLock {
+					for _, n := range lockedList {
+						if strings.HasPrefix(n, fnKey+"/cover/locals=") && n != cur {
+							if m := renameMap(strings.Split(strings.TrimPrefix(n, fnKey+"/cover/locals="), "|"), tab); m != nil {
+								if g.renames == nil {
+									g.renames = map[*funcInfo]map[string][]string{}
+								}
+								g.renames[fi] = m
+							}
+						}
+					}
+				}
 			}
 			e := safeVerify(g, fi, ct)
 			execs = append(execs, e)
@@ -431,6 +453,9 @@ func runCheck(prop, tier string, writeLock bool) int {
 	var slowest []slow
 	var samples []map[string]interface{}
 	seenLock := map[string]bool{}
+	for k := range localsSeen {
+		seenLock[k] = true
+	}
 	fnRep := map[string]*funcReport{}
 	for _, fr := range freps {
 		fnRep[fr.Name] = fr
